@@ -361,8 +361,19 @@ func genC12Case(t *rapid.T) *C12Case {
 			// one rule of the catalogue used several times with different arguments
 			// (separators, option lists, patterns, bounds) and values: state kept inside a
 			// rule's implementation would carry over from one use to the next
-			rule := rapid.SampledFrom(c05RuleNames).Draw(t, "familyRule")
+			rule := rapid.SampledFrom(append([]string{"re", "datetime", "in"}, c05RuleNames...)).Draw(t, "familyRule")
 			fresh := func() *Call {
+				if rule == "re" && rapid.Bool().Draw(t, "reSiblings") {
+					// patterns that differ only after their first '|' (a cache keyed by a prefix of the rule text would mix them up)
+					p := rapid.SampledFrom([]struct{ pat, hit, miss string }{{`^(cat|cow)$`, "cow", "dog"}, {`^(cat|dog)$`, "dog", "cow"}, {`^(cat|dog|cow)$`, "cow", "cot"}, {`^(cat|c.w)$`, "cxw", "dog"}}).Draw(t, "sibling")
+					item := "re='" + p.pat + "'" + rapid.SampledFrom([]string{"", "|m1", "|格式不对"}).Draw(t, "reMsg")
+					val := p.hit
+					if rapid.Bool().Draw(t, "reMiss") {
+						val = p.miss
+					}
+					return &Call{V: &ScalarCase{T: desc.Scalar("string"), Val: desc.Str(val), Rules: []string{item}, RePats: map[string]string{item: p.pat},
+						Carrier: rapid.SampledFrom([]string{"var", "tag", "rm", "map", "url"}).Draw(t, "reCarrier")}}
+				}
 				sc, _ := genC05CaseFor(t, rule)
 				return &Call{V: sc}
 			}
